@@ -159,8 +159,8 @@ func c14ProcessEvent(c *Ctx, pe *ssa.Function) {
 	classify := func(list ssa.Value) (prio, ord, locked, live, mode bool, n int) {
 		prio, ord, locked, live, mode = true, true, true, true, true
 		// the lists may be built by a private helper of the package that returns them
-		sliceEnterHelpers = funcPkgPath(pe)
-		defer func() { sliceEnterHelpers = "" }()
+		sliceEnterHelpers, sliceProg = funcPkgPath(pe), p
+		defer func() { sliceEnterHelpers, sliceProg = "", nil }()
 		backwardSlice(list, func(v ssa.Value) bool {
 			call, ok := v.(*ssa.Call)
 			if !ok {
